@@ -456,14 +456,26 @@ func (e *vmEnvironment) loadProgram(location common.Location) (*Program, error) 
 
 	// If there is a program, but it is not compiled yet, compile it.
 	// Directly update the program (pointer), which will also update the program "cache" kept by the embedder.
-	if program != nil && program.compiledProgram == nil {
+	if program != nil {
+		e.ensureCompiled(program, location)
+	}
+
+	return program, nil
+}
+
+// ensureCompiled compiles the given program, if it is not compiled yet.
+// Programs may be shared by the embedder between concurrently running executions,
+// so the lazy compilation is guarded by the program's lock.
+func (e *vmEnvironment) ensureCompiled(program *Program, location common.Location) {
+	program.compileLock.Lock()
+	defer program.compileLock.Unlock()
+
+	if program.compiledProgram == nil {
 		program.compiledProgram = e.compileProgram(
 			program.interpreterProgram,
 			location,
 		)
 	}
-
-	return program, nil
 }
 
 func (e *vmEnvironment) loadDesugaredElaboration(location common.Location) (*compiler.DesugaredElaboration, error) {
